@@ -1,5 +1,6 @@
 CONSTANTS HdlVal = 5 MinPL = 34 TtxN = 1 VpsN = 1 TSP = 10 HL = 17 TSH = 10 MaxLines = 64 RawN = 4 SegMax = 3 NFrames = 11 FrameTab <- MCFrameTab
   ClearOnReject = TRUE Cfgs <- CfgsT MaxFrames = 2 CorBufs = {1, 7, 14, 4096}
+  Dids = {} SizeReqs = {} MaxReconf = 0 WriteThrough = FALSE
 SPECIFICATION Spec
 INVARIANTS WellFormed CarriesInput RejectSilent Decisions CorEqualsCb Continuity Usable RoundTrip
 PROPERTIES RejectIsNoOp
